@@ -397,6 +397,10 @@ RULES = [
 def rule_worker_loops(ctx):
     from . import c04
     c04.mt_worker_loop_rule(ctx)
+    # no runnable task is dropped (= cancelled) or stranded when queues overflow or work is stolen
+    c04.rule_task_handover(ctx)
+    c04.rule_search_handover(ctx)
+    c04.rule_pool_bits(ctx)
 
 
 RULES.append(("C06.i", "run loops stop only when the worker's queues are empty (a worker that parks while holding runnable tasks makes the pool look idle: spurious Deadlock)", rule_worker_loops))
